@@ -624,6 +624,22 @@ impl<'a> Exec<'a> {
         let name = step.opname();
         self.fold_events(&out, &log);
 
+        // identity_map of a frame whose address is not a valid (canonical) virtual address: the
+        // documentation defines no outcome; refusing by panic is accepted, success is not (there
+        // is no page with that address), and nothing may have been touched
+        if let Step::IdentityMap { frame, .. } = step {
+            if *frame >> 47 != 0 {
+                if out.panic.is_none() && out.code == Code::Ok {
+                    return Err(viol(&["C01"], "identity-map-page", i, format!("identity_map of frame {frame:#x}, whose address is not a canonical virtual address, reported success (flush token for page {:x?})", out.token)));
+                }
+                let mut same = pre.clone();
+                if let Err((_, m)) = self.image_check(&mut same, &pre_mem, &[]) {
+                    return Err(viol(&["C02", "C09"], "failed-call-changed-memory", i, format!("identity_map of the non-canonical frame {frame:#x} was refused but changed memory: {m}")));
+                }
+                self.stats.probe("identity_map_of_non_canonical_frame_refused");
+                return Ok(());
+            }
+        }
         if let Some(msg) = &out.panic {
             let mut props = vec!["C01", "C02"];
             if matches!(step, Step::CleanUp | Step::CleanUpRange { .. }) {
@@ -817,7 +833,9 @@ impl<'a> Exec<'a> {
                 return Err(viol(&["C10"], "cleanup-double-free", i, format!("{name} released frame {:#x} twice", o.frame)));
             }
             if start > end || p.last_va() < start || p.va() > end_last {
-                return Err(viol(&["C10"], "cleanup-freed-outside-range", i, format!("{name} [{start:#x}, {end:#x}] released table {} (frame {:#x}) which does not overlap the range", p.fmt(), o.frame)));
+                // (a released table that still holds entries also changes what addresses translate to)
+                let props: &[&str] = if o.nonzero_words != 0 || after.has_children(p) { &["C10", "C01"] } else { &["C10"] };
+                return Err(viol(props, "cleanup-freed-outside-range", i, format!("{name} [{start:#x}, {end:#x}] released table {} (frame {:#x}) which does not overlap the range", p.fmt(), o.frame)));
             }
             if o.nonzero_words != 0 || after.has_children(p) {
                 return Err(viol(&["C10", "C01"], "cleanup-freed-non-empty", i, format!("{name} released table {} (frame {:#x}) while it still held {} entr(ies)", p.fmt(), o.frame, o.nonzero_words)));
